@@ -257,6 +257,7 @@ func (rc *raftNode) replayWAL(snapshot *raftpb.Snapshot, forceStandalone bool) e
 	if err != nil {
 		return err
 	}
+	verifWalRead(ents)
 
 	rc.Infof("wal meta: %v, restart with: %v, ents: %v", string(meta), st.String(), len(ents))
 	var m common.MemberInfo
@@ -488,6 +489,7 @@ func (rc *raftNode) restartNode(c *raft.Config, snapshot *raftpb.Snapshot) error
 		return err
 	}
 	verifPoint("restart.replayed")
+	verifReplayed(rc.raftStorage)
 	rc.node = raft.RestartNode(c)
 	advanceTicksForElection(rc.node, c.ElectionTick)
 	return nil
